@@ -51,6 +51,10 @@ func (t *tr) atom(e ast.Expr) (string, sort_) {
 		}
 		return x.Name, s
 	case *ast.SelectorExpr:
+		// named constants of other packages
+		if c, ok := knownConstants[flatten2(x)]; ok {
+			return c, sInt
+		}
 		// field paths like params.Fee, msg.ExactStandardAmt: flatten to an identifier
 		name := flatten(x)
 		s, ok := t.sorts[name]
@@ -105,6 +109,9 @@ func (t *tr) call(c *ast.CallExpr) (string, sort_) {
 				return "S18", sInt
 			}
 			return t.unsupported("NewIntWithDecimal with non-literal arguments")
+		case "LegacyNewDec":
+			a, _ := t.atom(c.Args[0])
+			return "(Dec.ofIntN " + a + ")", sDec
 		case "LegacyNewDecFromInt":
 			a, _ := t.atom(c.Args[0])
 			return "(Dec.ofIntN " + a + ")", sDec
@@ -150,6 +157,11 @@ func (t *tr) call(c *ast.CallExpr) (string, sort_) {
 		return "(Dec.ofIntN " + recv + ")", sDec
 	}
 	return t.unsupported("method " + m)
+}
+
+// constants of imported packages the kernels use (value checked by the correspondence run)
+var knownConstants = map[string]string{
+	"ethermint.PowerReduction": "S18", // 10^18
 }
 
 func lit(e ast.Expr) (string, bool) {
